@@ -171,7 +171,7 @@ def encode_layer(rng, kind, data):
 
 
 TOKEN_OF = {"gzip": b"gzip", "zlib": b"deflate", "raw": b"deflate"}
-UNKNOWN_TOKENS = [b"foobar", b"identity", b"x-unknown", b"", b"br", b"a b"]
+UNKNOWN_TOKENS = [b"foobar", b"identity", b"x-unknown", b"", b"br", b"a b", b"x-gzip", b"X-GZip", b"x-deflate", b"x-compress", b"x-snappy-framed", b"X-Private-Coding", b"gzipx", b"x-"]
 
 
 def spell(rng, tok):
@@ -532,11 +532,15 @@ class C15:
                 continue
             tok = TOKEN_OF[kind]
             hs = [(b"X-A", b"1"), (gen.randcase(rng, b"Content-Encoding"), gen.randcase(rng, tok))]
+            if rng.chance(1, 3):
+                hs.insert(rng.below(3), rng.pick([(b"Content-Range", b"bytes 0-1/2"), (b"content-range", b"bytes */100"), (b"Content-Type", b"application/gzip"), (b"Content-Type", b"application/x-gzip; x=y"),
+                                                  (b"Transfer-Encoding", b"gzip"), (b"Content-Length", b"5"), (b"Vary", b"Accept-Encoding"), (b"Accept-Ranges", b"bytes"), (b"Connection", b"close")]))
             meta = {"kind": kind, "data": data.hex(), "enc": enc.hex(), "layer": str(linfo), "hlen": linfo.get("hlen")}
             g = Group("t%d" % k, "damage-" + kind, meta)
             g.add("intact", "DECODE %d %s %s" % (tree, hdrs_field(hs), hx(enc)))
             cuts = range(len(enc)) if len(enc) <= 80 else sorted(set([0, 1, 2, 3, 9, 10, 11, len(enc) - 1, len(enc) - 2, len(enc) - 4, len(enc) - 5, len(enc) - 8, len(enc) - 9] + [rng.below(len(enc)) for _ in range(40)]))
-            for c in cuts:
+            marks = [i + 4 for i in range(len(enc) - 4) if enc[i:i + 4] == b"\x00\x00\xff\xff"]       # right behind a flush marker
+            for c in sorted(set(list(cuts) + marks)):
                 if 0 <= c < len(enc):
                     g.add("truncated", "DECODE %d %s %s" % (tree, hdrs_field(hs), hx(enc[:c])), {"cut": c})
             fields = []
@@ -711,7 +715,7 @@ def ref_text(hs, body):
 
 def gen_content_type(rng):
     ty = rng.pick([b"text", b"text", b"text", b"TEXT", b"Text", b"tEXt", b"application", b"texts", b"tex", b"", b" text", b"text ", b"image"])
-    sub = rng.pick([b"plain", b"html", b"", b"x-y", b"plain/extra", b"*"])
+    sub = rng.pick([b"plain", b"html", b"", b"x-y", b"plain/extra", b"*", b"event-stream", b"Event-Stream", b"event-stream ", b"csv", b"xml", b"javascript", b"calendar"])
     sep = rng.pick([b"/", b"/", b"/", b"/", b"", b"\\"])
     k = rng.below(10)
     label = rng.pick(UTF8_LABELS) if k < 3 else rng.pick(LATIN1_LABELS) if k < 6 else rng.pick(UNKNOWN_LABELS) if k < 8 else rng.pick(OTHER_LABELS)
@@ -719,7 +723,8 @@ def gen_content_type(rng):
     label = rng.pick([b"", b"", b" ", b"\t", b"\n"]) + label + rng.pick([b"", b"", b" ", b"\x0c"])
     params = []
     for _ in range(rng.below(3)):
-        params.append(rng.pick([b"x=y", b"q=0.5", b"boundary=abc", b"charset", b"=", b"", b"xcharset=utf-8", b"charset-x=utf-8", b"format=flowed"]))
+        params.append(rng.pick([b"x=y", b"q=0.5", b"boundary=abc", b"charset", b"=", b"", b"xcharset=utf-8", b"charset-x=utf-8", b"format=flowed",
+                                b'name="5\\" floppy.txt"', b'title="a; CHARSET=utf-8"', b'x="\\""', b'q="a;b"', b'n="', b'"=x', b"charset2=utf-8", b"Charset =utf-8"]))
     if rng.chance(4, 5):
         cs = gen.randcase(rng, b"charset") + b"=" + label
         params.insert(rng.below(len(params) + 1), cs)
